@@ -11,6 +11,8 @@ VARIABLES l, bad
 
 Seq0(s) == s       \* recorded index vectors hold 0-based values in 1-based sequences
 
+\* 4 / sqrt|d| for d in {1, 4, 16} (0: not a power of four - never equal to a recorded scale)
+S4(d) == LET a == IF d < 0 THEN -d ELSE d IN IF a = 1 THEN 4 ELSE IF a = 4 THEN 2 ELSE IF a = 16 THEN 1 ELSE 0
 SquareOnly(ad) == ad \in {"crs_tuple", "crs_tuple/range", "crs_builder", "ublas"}
 
 ViewClauses(r) ==
@@ -18,7 +20,12 @@ ViewClauses(r) ==
         wf  == WellFormed(A) /\ WellFormed(r.out) /\ Len(r.x) = r.out.m /\ Len(r.y) = r.out.n
         exp == \* the operator the view must show
             CASE r.ad = "reorder"       -> wf /\ IsPerm(r.perm, A.n) /\ ReorderOK(A, r.perm, r.out)
+              \* given scale: out = S A S; scale_diagonal: s and out arrive as 4 s and 16 (S A S) (dyadic fixed point),
+              \* and s must be 1/sqrt|a_ii| whatever the order of the row entries (diagonals are powers of 4)
               [] r.ad = "scaled_matrix" -> wf /\ Len(r.s) = A.n /\ ScaledOK(A, r.s, r.out)
+                                           /\ (r.it = "scale_diagonal" =>
+                                                 /\ \A i \in Rows(A) : r.s[i + 1] = S4(At(A, i, i))
+                                                 /\ r.vs = [i \in 1..A.n |-> r.s[i] * r.vx[i]])
               [] OTHER                  -> wf /\ SameOperator(r.out, A)
     IN  <<  <<"wellformed", wf>>,
             <<"rows/cols/nonzeros agree with the source", r.rows = A.n /\ r.cols = A.m /\ r.nnz = NNZ(A)>>,
